@@ -124,6 +124,19 @@ def det_ops(rng):
         pr = [(parts[i + 1] - parts[i]) / 64.0 for i in range(n)]
         vals = sorted(rng.sample(range(-20, 40), n))
         return "drand %s ; %s" % (" ".join(map(hx, vals)), " ".join(map(hx, pr)))
+    if r < 0.89:
+        k = rng.randint(1, 5)
+        rowsm = []
+        for _ in range(k):
+            parts = [0] + sorted(rng.randint(0, 32) for _ in range(k - 1)) + [32]
+            rowsm += [(parts[i + 1] - parts[i]) / 32.0 for i in range(k)]
+        if k > 1 and rng.random() < 0.7:     # strictly positive rows (the simplex coding needs them) most of the time
+            rowsm = []
+            for _ in range(k):
+                raw = [rng.randint(1, 8) for _ in range(k)]
+                t = float(sum(raw))
+                rowsm += [x / t for x in raw]
+        return "hmm %d %d ; %s" % (k, rng.randint(0, 10), " ".join(map(hx, rowsm)))
     if r < 0.95:
         rows, cols = margins(rng, rng.choice([6, 30, 200]))
         if rng.random() < 0.05:
@@ -169,6 +182,10 @@ def stat_cases(rng, seeds, tier):
         for ncat in ([2, 4, 7] if big else [4]):
             s = seeds[i % len(seeds)]; i += 1
             cases.append(["case chi2d-%s-%d" % (fam, i), "seed %d" % s, "chi2d %s %d %d %s" % (fam, n_chi, ncat, " ".join(map(hx, ps)))])
+    for mat in [[0.9, 0.1, 0.2, 0.8], [0.5, 0.25, 0.25, 0.1, 0.8, 0.1, 0.3, 0.3, 0.4], [0.25, 0.75, 0.75, 0.25]]:
+        n = int(round(math.sqrt(len(mat))))
+        s = seeds[i % len(seeds)]; i += 1
+        cases.append(["case chi2d-hmm-%d" % i, "seed %d" % s, "chi2d hmm %d %d %s" % (n_chi // 4, n, " ".join(map(hx, mat)))])
     for (r0, r1, c0) in [(5, 1, 3), (3, 3, 3), (10, 7, 6), (1, 1, 1), (20, 30, 25), (2, 9, 4)] + ([(50, 50, 50), (7, 3, 9)] if big else []):
         s = seeds[i % len(seeds)]; i += 1
         cases.append(["case chi2rc-%d" % i, "seed %d" % s, "chi2rc %d %d %d %d %d" % (n_chi // 4, r0, r1, c0, r0 + r1 - c0)])
@@ -206,7 +223,7 @@ def generate(seed, tier):
            "samplew 0 1 ;", "samplew 1 1 ;", "samplew 1 0 ;", "sample 0 5 1 2 3", "samplew 0 5 1 2 3 ; %s %s %s" % (hx(1), hx(1), hx(1)),
            "cumsum", "cumsum %s" % hx(1.0), "cumsum %s %s" % (hx(0.0), hx(1.0)), "multinom 0 %s" % hx(1.0), "multinom 3 %s" % hx(2.0),
            "rcont2 3 ; 1 2", "rcont2 1 2 ; 3", "rcont2 ; ", "rcont2 1 2 ; 2 2", "rcont2 0 0 ; 0 0", "rcont2 0 5 ; 5 0", "rcont2 0 0 0 ; 0 0 0 0",
-           "ctest 0 2 2 0 0 1 1", "ctest 5 2 2 0 1 0 1", "ctest 5 1 2 3 4", "ctest 0 2 2 1 1 1 1", "ctest 3 2 2 1 1 1 1",
+           "ctest 0 2 2 0 0 1 1", "ctest 5 2 2 0 1 0 1", "ctest 5 1 2 3 4", "ctest 0 2 2 1 1 1 1", "ctest 3 2 2 1 1 1 1", "ctest 5 2 2 1 0 0 1", "ctest 40 2 2 0 1 1 0", "ctest 1 2 2 1 0 0 1",
            "pickw 0 1 2 3 ; %s %s %s" % (hx(0), hx(0), hx(0)), "samplew 0 3 1 2 3 ; %s %s %s" % (hx(0), hx(0), hx(0))]
     for j, s in enumerate(seeds[:4]):
         cases.append(["case edge-%d" % j, "seed %d" % s] + bad)
